@@ -25,8 +25,8 @@ import (
 //
 // Every program (with its in-memory import set) is handed to three different chunks of
 // the case list, hence normally to three different worker processes (different map hash
-// seeds), each with a different GOMAXPROCS (1, 4, 16). A worker compiles it 3× one after
-// another and then 6× from 6 goroutines at once while two neighbour programs are being
+// seeds), each with a different GOMAXPROCS (1, 4, 16). A worker compiles it 8× one after
+// another and then 12× from 12 goroutines at once while two neighbour programs are being
 // compiled concurrently by further goroutines. Oracle:
 //   same-process.sequential   all sequential outcomes identical
 //   same-process.concurrent   every concurrent outcome identical to the sequential one
@@ -60,7 +60,7 @@ type c08Obs struct {
 func init() {
 	run.Register(&run.Check{
 		ID: "C08", Title: "Compilation is deterministic",
-		LevelText: "Exploration under the race detector: hundreds (quick) to tens of thousands (thorough) of generated programs of the full language (globs, vars, classes, boards, imports from an in-memory file set) and the repository's scripts are each compiled 3× sequentially and 6× concurrently (next to other compilations) in three different worker processes with GOMAXPROCS 1, 4 and 16; all outcomes (canonical projection of the graph and configuration, or the ordered error list) must be identical within a process and across processes, and the race detector must stay silent.",
+		LevelText: "Exploration under the race detector: hundreds (quick) to tens of thousands (thorough) of generated programs of the full language (globs, vars, classes, boards, imports from an in-memory file set) and the repository's scripts are each compiled 8× sequentially and 12× concurrently (next to other compilations) in three different worker processes with GOMAXPROCS 1, 4 and 16; all outcomes (canonical projection of the graph and configuration, or the ordered error list) must be identical within a process and across processes, and the race detector must stay silent.",
 		Technique: "runtime monitoring: run-to-run / cross-process / concurrent metamorphic oracle + Go race detector",
 		DesignRef: "§4 C08",
 		Rule:      "cases: gen.Program(lang, with imports) + corpus, each as 3 copies placed in different chunks; distinct by sha256(text+files); non-trivial when the outcome is a graph with ≥3 objects or an error list with ≥2 entries, and the 3 copies were observed",
@@ -73,7 +73,7 @@ func init() {
 
 func genC08(seed int64, tier string, emit func(run.Case)) {
 	r := gen.New(seed)
-	n := tierN(tier, 70, 2000)
+	n := tierN(tier, 60, 1500)
 	type prog struct {
 		text  string
 		files map[string]string
@@ -85,7 +85,9 @@ func genC08(seed int64, tier string, emit func(run.Case)) {
 	for i := 0; len(progs) < n; i++ {
 		q := r.Sub(i)
 		var p prog
-		switch q.Intn(6) {
+		switch q.Intn(9) {
+		case 6, 7, 8:
+			p = prog{text: c08OrderSensitive(q), files: map[string]string{"x.d2": "imp1: {shape: circle}\nimp2 -> imp1\nclasses: {hot: {style.stroke: orange}}\n", "y.d2": "s; t; s -> t\n"}, src: "order-sensitive"}
 		case 0:
 			p = prog{text: gen.Pick(q, cor), src: "corpus"}
 			if len(p.text) > 6<<10 {
@@ -116,6 +118,104 @@ func genC08(seed int64, tier string, emit func(run.Case)) {
 			emit(run.MkCase(fmt.Sprintf("k%d-p%06d", k, i), p.src, c08In{Prog: i, Copy: k, Text: p.text, Files: p.files, Neighbours: nb, Src: p.src}))
 		}
 	}
+}
+
+// Repetitions per program and process: a construct that picks one of two orders at random
+// (a map sneaking into an ordered computation) escapes k comparisons with probability
+// 2^-(k-1); 8 sequential + 12 concurrent compilations, in three processes, make a miss
+// negligible.
+const (
+	c08Seq  = 8
+	c08Conc = 12
+)
+
+// c08OrderSensitive builds programs whose result depends on an order that a map in the
+// implementation would randomise: class arrays with repeated names and ≥2 distinct classes
+// that set the same attributes to different values (objects and connections, also through
+// a spread substitution), many classes / vars / globs matching many objects, duplicate
+// keys, boards with many siblings, imports.
+func c08OrderSensitive(r *gen.R) string {
+	var sb strings.Builder
+	cls := []string{"hot", "cold", "warm", "dry", "wet", "big"}
+	ncls := r.Range(2, len(cls))
+	cls = cls[:ncls]
+	colors := []string{"red", "blue", "green", "orange", "purple", "black"}
+	sb.WriteString("vars: {\n  common: [" + cls[0] + "; " + cls[1] + "]\n")
+	for i := 0; i < r.Range(2, 8); i++ {
+		fmt.Fprintf(&sb, "  v%d: %s\n", i, gen.Pick(r, colors))
+	}
+	sb.WriteString("}\nclasses: {\n")
+	for i, c := range cls {
+		fmt.Fprintf(&sb, "  %s: {style.fill: %s; style.stroke: %s; style.stroke-width: %d; label: %s; shape: %s}\n", c, colors[i%len(colors)], colors[(i+2)%len(colors)], i+1, "L"+c, gen.Pick(r, gen.SimpleShapes))
+	}
+	sb.WriteString("}\n")
+	list := func() string {
+		n := r.Range(2, 5)
+		var items []string
+		for i := 0; i < n; i++ {
+			items = append(items, gen.Pick(r, cls))
+		}
+		// force a repeat and two distinct names
+		items = append(items, items[0])
+		if items[1] == items[0] {
+			items[1] = cls[(r.Intn(ncls-1)+1+c08IndexOf(cls, items[0]))%ncls]
+		}
+		if r.P(0.3) {
+			items = append([]string{"...${common}"}, items...)
+		}
+		return "[" + strings.Join(items, "; ") + "]"
+	}
+	nobj := r.Range(3, 14)
+	for i := 0; i < nobj; i++ {
+		name := fmt.Sprintf("o%d", i)
+		switch r.Intn(5) {
+		case 0:
+			sb.WriteString(name + ".class: " + list() + "\n")
+		case 1:
+			sb.WriteString(name + ": {class: " + list() + "; style.fill: ${v0}}\n")
+		case 2:
+			sb.WriteString(name + ": {a; b; c; a -> b: {class: " + list() + "}}\n")
+		case 3:
+			sb.WriteString(name + ".class: " + gen.Pick(r, cls) + "\n" + name + ".class: " + list() + "\n")
+		default:
+			sb.WriteString(name + "\n")
+		}
+	}
+	for i := 0; i < r.Range(1, 6); i++ {
+		a, b := fmt.Sprintf("o%d", r.Intn(nobj)), fmt.Sprintf("o%d", r.Intn(nobj))
+		sb.WriteString(a + " " + gen.Pick(r, gen.Arrows) + " " + b + ": {class: " + list() + "}\n")
+	}
+	if r.P(0.6) {
+		sb.WriteString("*.style.opacity: 0.5\n**.style.bold: true\n(* -> *)[*].style.animated: true\no*: {&shape: circle; style.shadow: true}\n")
+	}
+	if r.P(0.5) {
+		sb.WriteString("o1: dup1\no1: dup2\nO1.style.fill: ${v1}\no1.style.fill: white\n")
+	}
+	if r.P(0.4) {
+		sb.WriteString("imp: @x\n...@y\n")
+	}
+	if r.P(0.5) {
+		for _, k := range []string{"layers", "scenarios", "steps"} {
+			if !r.P(0.6) {
+				continue
+			}
+			sb.WriteString(k + ": {\n")
+			for j := 0; j < r.Range(2, 7); j++ {
+				fmt.Fprintf(&sb, "  b%d: {n%d.class: %s; n%d -> o0}\n", j, j, list(), j)
+			}
+			sb.WriteString("}\n")
+		}
+	}
+	return sb.String()
+}
+
+func c08IndexOf(xs []string, x string) int {
+	for i, v := range xs {
+		if v == x {
+			return i
+		}
+	}
+	return 0
 }
 
 // c08Outcome compiles once and renders the outcome canonically.
@@ -153,7 +253,7 @@ func execC08(c run.Case) (res run.Result) {
 
 	kind, first, nobj, nerr := c08Outcome(in.Text, in.Files)
 	res.Inc("outcome_" + kind)
-	for i := 1; i < 3; i++ {
+	for i := 1; i < c08Seq; i++ {
 		k2, o2, _, _ := c08Outcome(in.Text, in.Files)
 		res.Inc("compilations_sequential")
 		if k2 != kind || o2 != first {
@@ -161,7 +261,7 @@ func execC08(c run.Case) (res run.Result) {
 			break
 		}
 	}
-	const conc = 6
+	const conc = c08Conc
 	outs := make([]string, conc)
 	kinds := make([]string, conc)
 	var wg sync.WaitGroup
@@ -180,12 +280,11 @@ func execC08(c run.Case) (res run.Result) {
 			defer wg.Done()
 			<-start
 			c08Outcome(nb, in.Files)
-			c08Outcome(nb, in.Files)
 		}(nb)
 	}
 	close(start)
 	wg.Wait()
-	res.Add("compilations_concurrent", conc+2*len(in.Neighbours))
+	res.Add("compilations_concurrent", conc+len(in.Neighbours))
 	for i := range outs {
 		if kinds[i] != kind || outs[i] != first {
 			res.Viol("C08.same-process.concurrent", "C08.same-process.concurrent:"+kind+"-vs-"+kinds[i]+":"+c08DiffClass(first, outs[i]), fmt.Sprintf("concurrent compilation %d (GOMAXPROCS=%d) differs from the sequential outcome\n%s\ninput:\n%s", i, procs, proj.Diff(first, outs[i]), trunc(in.Text, 1500)))
